@@ -1,6 +1,7 @@
 \* Evaluator: env CASES = ndjson file of {id, p}.  64 work-packet states, one successor state per case;
 \* the invariant prints Expected(p) (FeaSem.tla) for the case.  Bounds are those of the cases given:
 \* strings of length <= 3 over p.alpha, every registered (script, language), every non-empty feature subset.
+CONSTANTS Stride = 1 Offset = 0
 INIT InitObs
 NEXT NextObs
 INVARIANT EmitObs
